@@ -41,6 +41,13 @@ func corruptions(c pcell) [][2]string {
 			out = append(out, [2]string{"wrong-element-type", prefix + "1,x,3"})
 		}
 	}
+	if c.Loc == "header" && c.Kind == "styled" {
+		switch c.Shape {
+		case "int", "int64", "float", "bool", "date", "datetime", "uuid":
+			// the header field is there and its value is empty: not a number, not a date (and not "absent")
+			out = append(out, [2]string{"empty-header-value", ""})
+		}
+	}
 	if c.Kind == "json" {
 		out = append(out, [2]string{"malformed-json", "{\"firstName\":"}, [2]string{"json-wrong-type", "{\"firstName\":5,\"role\":[]}"},
 			// a complete value followed by more text: one value is not the whole parameter
@@ -322,5 +329,5 @@ func runC06(r *Report, rng *rand.Rand, thorough bool) {
 	}
 	r.Exhaustive = thorough
 	runC06Combine(r, rng, thorough)
-	r.Rule = "function level: CombineOperationParameters on random path-level / operation-level parameter lists vs the model; every operation of the parameter family (one per cell of location x style x explode x shape x required x schema/JSON content) x {required parameter missing, optional parameter missing (must be accepted), wrong type, integer overflow, bad date / date-time / uuid, wrong array element, malformed JSON content (truncated, wrong member type, a complete value followed by more text), wrong label/matrix prefix, duplicated single-valued header} x 7 frameworks x {default error path, configured error handler}; a POST operation with required pass-through / JSON / styled and optional query parameters next to a form-encoded body whose fields carry the parameters' names (required parameter only in the body: rejected; complete query with same-named body fields: accepted with the query's values; optional only in the body: absent); oracle: zero handler calls and status 400 / error handler invoked for corrupted requests, exactly one handler call for well-formed ones; non-trivial = a corruption or a missing required parameter"
+	r.Rule = "function level: CombineOperationParameters on random path-level / operation-level parameter lists vs the model; every operation of the parameter family (one per cell of location x style x explode x shape x required x schema/JSON content) x {required parameter missing, optional parameter missing (must be accepted), wrong type, integer overflow, bad date / date-time / uuid, wrong array element, malformed JSON content (truncated, wrong member type, a complete value followed by more text), wrong label/matrix prefix, duplicated single-valued header, header present with an empty value (non-string types)} x 7 frameworks x {default error path, configured error handler}; a POST operation with required pass-through / JSON / styled and optional query parameters next to a form-encoded body whose fields carry the parameters' names (required parameter only in the body: rejected; complete query with same-named body fields: accepted with the query's values; optional only in the body: absent); oracle: zero handler calls and status 400 / error handler invoked for corrupted requests, exactly one handler call for well-formed ones; non-trivial = a corruption or a missing required parameter"
 }
